@@ -163,7 +163,7 @@ ITEMS.update({
         iter_names={0: 'it', 1: 'it2'},
         loops={0: '''invariant
                 it.seq() == ts, ts.len() >= 2,
-                batch_hyp(ts) ==> (result_types@ == dedupe(ts.take(it.index@)) && hash_set.elems() == result_types@),''',
+                batch_hyp(ts) ==> (result_types@ == dedupe(ts.take(it.index@)) && hash_set.elems() == result_types@) /*@C16.union.from-vec-is-union-of-distinct-members.inv*/,''',
                1: '''invariant
                 it.seq() == ts, ts.len() >= 2, !no_unions(ts),'''},
         proof=[
@@ -236,7 +236,7 @@ ITEMS.update({
         loops={0: '''invariant
                 it.seq().len() == types@.len(), forall|k: int| 0 <= k < it.seq().len() ==> *(#[trigger] it.seq()[k]) == types@[k],
                 0 <= boolean_const_count <= 1,
-                forall|i: int| 0 <= i < it.index@ ==> plain(#[trigger] types@[i]),
+                forall|i: int| 0 <= i < it.index@ ==> plain(#[trigger] types@[i]) /*@C16.union.fast-path-only-without-pair-rules.plain.inv*/,
                 forall|i: int| 0 <= i < it.index@ && (#[trigger] types@[i]) is Number ==> has_number,
                 forall|i: int| 0 <= i < it.index@ && num_variant(#[trigger] types@[i]) ==> has_number_variant,
                 forall|i: int| 0 <= i < it.index@ && (#[trigger] types@[i]) is Integer ==> has_integer,
@@ -302,7 +302,8 @@ ITEMS.update({
         body_first='let ghost ts0 = types@;',
         iter_names={0: 'it', 1: 'it2'},
         loops={0: '''invariant
-                it.seq() == ts0, !has_any(ts0.take(it.index@)),
+                it.seq() == ts0,
+                !has_any(ts0.take(it.index@)) /*@C16.union.batch.any-absorbs.inv*/,
                 result_types@ == drop_never(ts0.take(it.index@)) /*@C16.union.batch.never-is-dropped.inv*/,''',
                1: '''invariant
                 it2.seq() == ts, fold_hyp(ts) ==> acc_ok(result, dedupe(ts.take(it2.index@))),'''},
@@ -342,9 +343,79 @@ ITEMS.update({
         ]),
 })
 
+ST = TC + 'sub_type.rs'
+ITEMS.update({
+    'is_sub_type_of': fn(ST, 'is_sub_type_of', ret='r', ensures='''
+        (exists|n: nat| ancestor_within(sp_type_index(db), *sub_type_ref_id, *super_type_ref_id, n)) ==> r /*@C16.subtype.ancestor-is-found*/'''),
+    'check_sub_type_of_iterative': fn(
+        ST, 'check_sub_type_of_iterative', ret='r', attrs='#[verifier::exec_allows_no_decreases_clause]\n#[verifier::spinoff_prover]',
+        rules=['c16-while-let-loop'],
+        ensures='''
+        (exists|n: nat| ancestor_within(sp_type_index(db), *sub_type_ref_id, *super_type_ref_id, n)) ==> r /*@C16.subtype.ancestor-is-found*/''',
+        iter_names={1: 'it'},
+        proof=[
+            (r'stack\.push\(sub_type_ref_id\);', 'after', '''proof {
+        assert(stack@.drop_last() == Seq::<&LuaTypeDeclId>::empty());
+        assert forall|x: LuaTypeDeclId| #[trigger] in_stack(stack@, x) implies x == *sub_type_ref_id by { assert(!in_stack(stack@.drop_last(), x)); }
+        assert(!in_stack(stack@.drop_last(), *sub_type_ref_id));
+        assert(stack_nodup(stack@.drop_last()));
+    }'''),
+            (r'let current_id = match stack\.pop\(\)', 'before', 'let ghost stack0 = stack@;'),
+            (r'let supers_iter = match', 'before', '''let ghost cur = *current_id; let ghost ix = sp_type_index(db);
+        proof {
+            assert(stack0.drop_last() == stack@ && *stack0.last() == cur);
+            assert forall|x: LuaTypeDeclId| #[trigger] in_stack(stack@, x) implies visited.ids().contains(x) by { assert(in_stack(stack0, x)); }
+            assert(in_stack(stack0, cur));
+        }'''),
+            (r'stack\.push\(super_id\);', 'before', 'let ghost s0 = stack@;'),
+            (r'stack\.push\(super_id\);', 'after', '''proof {
+                            assert(stack@.drop_last() == s0);
+                            assert forall|x: LuaTypeDeclId| #[trigger] in_stack(stack@, x) implies x == *super_id || in_stack(s0, x) by { }
+                            assert forall|x: LuaTypeDeclId| in_stack(s0, x) implies #[trigger] in_stack(stack@, x) by { }
+                        }'''),
+            (r'stack\.push\(base_type_id\);', 'before', 'let ghost s1 = stack@;'),
+            (r'stack\.push\(base_type_id\);', 'after', '''proof {
+                            assert(stack@.drop_last() == s1);
+                            assert forall|x: LuaTypeDeclId| #[trigger] in_stack(stack@, x) implies x == *base_type_id || in_stack(s1, x) by { }
+                            assert forall|x: LuaTypeDeclId| in_stack(s1, x) implies #[trigger] in_stack(stack@, x) by { }
+                        }'''),
+            (r'\n    false\n', 'before', """
+    proof {
+        let ix = sp_type_index(db);
+        assert forall|n: nat| !ancestor_within(ix, *sub_type_ref_id, *super_type_ref_id, n) by {
+            lemma_closed_excludes(ix, visited.ids(), *sub_type_ref_id, *super_type_ref_id, n);
+        }
+    }"""),
+        ],
+        loops={0: '''invariant
+            *type_index == sp_type_index(db), *sub_type_ref_id != *super_type_ref_id,
+            visited.ids().contains(*sub_type_ref_id), !visited.ids().contains(*super_type_ref_id),
+            forall|x: LuaTypeDeclId| #[trigger] in_stack(stack@, x) ==> visited.ids().contains(x),
+            stack_nodup(stack@),
+            forall|x: LuaTypeDeclId, y: LuaTypeDeclId| visited.ids().contains(x) && #[trigger] super_edge(sp_type_index(db), x, y)
+                ==> visited.ids().contains(y) || in_stack(stack@, x) /*@C16.subtype.ancestor-is-found.inv*/,
+        ensures stack@.len() == 0,''',
+               1: '''invariant
+            ix == sp_type_index(db), *type_index == ix, *sub_type_ref_id != *super_type_ref_id, cur == *current_id,
+            sp_supers(ix, cur) matches Some(s) && s.len() == it.seq().len() && (forall|k: int| 0 <= k < s.len() ==> *(#[trigger] it.seq()[k]) == s[k]),
+            visited.ids().contains(*sub_type_ref_id), !visited.ids().contains(*super_type_ref_id), visited.ids().contains(cur), !in_stack(stack@, cur),
+            forall|x: LuaTypeDeclId| #[trigger] in_stack(stack@, x) ==> visited.ids().contains(x),
+            stack_nodup(stack@),
+            forall|x: LuaTypeDeclId, y: LuaTypeDeclId| visited.ids().contains(x) && #[trigger] super_edge(ix, x, y)
+                ==> visited.ids().contains(y) || in_stack(stack@, x) || x == cur,
+            forall|i: int, y: LuaTypeDeclId| 0 <= i < it.index@ && #[trigger] edge_to(sp_supers(ix, cur)->Some_0[i], y)
+                ==> visited.ids().contains(y) /*@C16.subtype.ancestor-is-found.inv2*/,'''},
+    ),
+})
+
 UNIT = {
     'items': ITEMS,
     'extra_rules': [
+        ('c16-while-let-loop', r'while let Some\(current_id\) = stack\.pop\(\) \{',
+         'loop { let current_id = match stack.pop() { Some(__popped) => __popped, None => break };',
+         '`while let Some(X) = E { BODY }` -> `loop { let X = match E { Some(v) => v, None => break }; BODY }` (Rust reference: while-let is '
+         '`loop { match E { PAT => { BODY }, _ => break } }`; the binding scopes over BODY, `continue` re-enters the loop either way). '
+         'Done only to give the contract overlay a statement in front of the `pop` to attach a ghost snapshot to.'),
         ('c16-contains', r'\b(\w+)\.contains\(([^()]*)\)', r'vx_contains(&\1, \2)',
          'V.contains(X) on a Vec<LuaType> -> vx_contains(&V, X) (helper body is that call; contract = std doc of slice::contains with the proved meaning of LuaType::eq)'),
         ('c16-find-non-nil', r'types\.iter\(\)\.find\(\|t\| !matches!\(t, LuaType::Nil\)\)', 'vx_find_non_nil(&types)',
